@@ -1,4 +1,6 @@
-/-! scratch: process life-cycle: kernel signal/wait semantics + ptyprocess + pexpect.spawn glue -/
+/-! Process life-cycle (C09, C10): the kernel's signal / wait semantics for one child and one descriptor,
+    ptyprocess' `isalive` / `kill` / `terminate` / `wait` / `close`, and pexpect.spawn's copies of the status
+    (with the repaired `close`).  `plan` is what the child does on its own when somebody waits for it. -/
 namespace Lf
 
 inductive Fate | exit (code : Nat) | signal (sig : Nat) deriving DecidableEq, Repr
@@ -9,27 +11,36 @@ def SIGINT := 2
 def SIGKILL := 9
 def SIGCONT := 18
 
-structure K where              -- the kernel's view of the child and of our descriptor
+/-- the raw wait status the kernel reports: exit code in bits 8..15, terminating signal in bits 0..6 -/
+def Fate.encode : Fate → Nat
+  | .exit c => c * 256
+  | .signal s => s
+
+/-- `os.WIFEXITED / WEXITSTATUS / WIFSIGNALED / WTERMSIG` -/
+def decode (status : Nat) : Fate := if status % 128 = 0 then .exit (status / 256 % 256) else .signal (status % 128)
+
+structure K where
   proc : Proc
   ignHup : Bool
   ignInt : Bool
   pendHup : Bool := false
   pendInt : Bool := false
+  pendOther : Option Nat := none   -- another fatal signal sent while stopped (stays pending until SIGCONT)
   fdOpen : Bool := true
+  plan : Fate := .exit 0       -- how the child ends if it is left alone and waited for
 deriving DecidableEq, Repr
 
 def isReaped (p : Proc) : Bool := match p with | .reaped _ => true | _ => false
 
-def dead (k : K) : Bool := match k.proc with | .zombie _ | .reaped _ => true | _ => false
-
-/-- deliver a signal (only HUP, INT, KILL, CONT are used by pexpect / ptyprocess) -/
+/-- deliver a signal (HUP, INT, KILL, CONT are the ones pexpect / ptyprocess send; any other fatal signal kills) -/
 def deliver (k : K) (sig : Nat) : K :=
   match k.proc with
   | .running =>
     if sig = SIGKILL then { k with proc := .zombie (.signal SIGKILL) }
     else if sig = SIGHUP then (if k.ignHup then k else { k with proc := .zombie (.signal SIGHUP) })
     else if sig = SIGINT then (if k.ignInt then k else { k with proc := .zombie (.signal SIGINT) })
-    else k
+    else if sig = SIGCONT then k
+    else { k with proc := .zombie (.signal sig) }
   | .stopped =>
     if sig = SIGKILL then { k with proc := .zombie (.signal SIGKILL) }
     else if sig = SIGHUP then { k with pendHup := !k.ignHup }
@@ -37,24 +48,36 @@ def deliver (k : K) (sig : Nat) : K :=
     else if sig = SIGCONT then
       if k.pendHup then { k with proc := .zombie (.signal SIGHUP), pendHup := false }
       else if k.pendInt then { k with proc := .zombie (.signal SIGINT), pendInt := false }
-      else { k with proc := .running }
-    else k
+      else match k.pendOther with
+        | some s => { k with proc := .zombie (.signal s), pendOther := none }
+        | none => { k with proc := .running }
+    else match k.pendOther with
+      | some _ => k
+      | none => { k with pendOther := some sig }
   | _ => k
 
 /-- closing the master hangs up the terminal: the kernel sends SIGHUP then SIGCONT -/
 def closeMaster (k : K) : K := deliver (deliver { k with fdOpen := false } SIGHUP) SIGCONT
 
-structure PP where             -- ptyprocess.PtyProcess fields that matter
+/-- the child runs to its own end -/
+def finishPlan (k : K) : K :=
+  match k.proc with
+  | .running => { k with proc := .zombie k.plan }
+  | _ => k
+
+structure PP where             -- ptyprocess.PtyProcess
   terminated : Bool := false
   closed : Bool := false
+  status : Option Nat := none
   exitstatus : Option Nat := none
   signalstatus : Option Nat := none
 deriving DecidableEq, Repr
 
-structure SP where             -- pexpect.spawn fields
+structure SP where             -- pexpect.spawn
   terminated : Bool := false
   closed : Bool := false
   childFd : Int := 5
+  status : Option Nat := none
   exitstatus : Option Nat := none
   signalstatus : Option Nat := none
 deriving DecidableEq, Repr
@@ -65,12 +88,13 @@ structure W where
   sp : SP
 deriving DecidableEq, Repr
 
+/-- what `isalive` / `wait` store from the raw status -/
 def setFate (pp : PP) (f : Fate) : PP :=
-  match f with
-  | .exit c => { pp with terminated := true, exitstatus := some c, signalstatus := none }
-  | .signal s => { pp with terminated := true, exitstatus := none, signalstatus := some s }
+  match decode f.encode with
+  | .exit c => { pp with terminated := true, status := some f.encode, exitstatus := some c, signalstatus := none }
+  | .signal s => { pp with terminated := true, status := some f.encode, exitstatus := none, signalstatus := some s }
 
-/-- ptyprocess.isalive with WNOHANG (flag_eof = false) -/
+/-- ptyprocess.isalive (WNOHANG) -/
 def ppIsalive (w : W) : Bool × W :=
   if w.pp.terminated then (false, w)
   else match w.k.proc with
@@ -79,103 +103,698 @@ def ppIsalive (w : W) : Bool × W :=
     | _ => (true, w)
 
 def ppKill (w : W) (sig : Nat) : W :=
-  let (alive, w) := ppIsalive w
-  if alive then { w with k := deliver w.k sig } else w
+  let r := ppIsalive w
+  if r.1 then { r.2 with k := deliver r.2.k sig } else r.2
 
-/-- ptyprocess.terminate / pexpect.spawn.terminate (same code) -/
+/-- ptyprocess.terminate / pexpect.spawn.terminate -/
 def ppTerminate (w : W) (force : Bool) : Bool × W :=
-  let (a, w) := ppIsalive w
-  if !a then (true, w) else
-  let w := ppKill w SIGHUP
-  let (a, w) := ppIsalive w
-  if !a then (true, w) else
-  let w := ppKill w SIGCONT
-  let (a, w) := ppIsalive w
-  if !a then (true, w) else
-  let w := ppKill w SIGINT
-  let (a, w) := ppIsalive w
-  if !a then (true, w) else
+  let r := ppIsalive w
+  if !r.1 then (true, r.2) else
+  let r := ppIsalive (ppKill r.2 SIGHUP)
+  if !r.1 then (true, r.2) else
+  let r := ppIsalive (ppKill r.2 SIGCONT)
+  if !r.1 then (true, r.2) else
+  let r := ppIsalive (ppKill r.2 SIGINT)
+  if !r.1 then (true, r.2) else
   if force then
-    let w := ppKill w SIGKILL
-    let (a, w) := ppIsalive w
-    (!a, w)
-  else (false, w)
+    let r := ppIsalive (ppKill r.2 SIGKILL)
+    (!r.1, r.2)
+  else (false, r.2)
 
-/-- pexpect.spawn.isalive: copy the status when dead -/
+def copyStatus (w : W) : W :=
+  { w with sp := { w.sp with terminated := true, status := w.pp.status, exitstatus := w.pp.exitstatus, signalstatus := w.pp.signalstatus } }
+
+/-- pexpect.spawn.isalive -/
 def spIsalive (w : W) : Bool × W :=
-  let (a, w) := ppIsalive w
-  if a then (true, w)
-  else (false, { w with sp := { w.sp with terminated := true, exitstatus := w.pp.exitstatus, signalstatus := w.pp.signalstatus } })
+  let r := ppIsalive w
+  if r.1 then (true, r.2) else (false, copyStatus r.2)
+
+/-- pexpect.spawn.wait: ptyprocess.wait (blocking waitpid if alive) then copy.  A stopped child is never reported
+    by a plain waitpid: the call does not return (modelled as "no result, nothing changes") -/
+def spWait (w : W) : Option Nat × W :=
+  let r := ppIsalive w
+  if r.1 then
+    match (finishPlan r.2.k).proc with
+    | .zombie f =>
+      let w2 := copyStatus { r.2 with k := { finishPlan r.2.k with proc := .reaped f }, pp := setFate r.2.pp f }
+      (w2.pp.exitstatus, w2)
+    | _ => (none, r.2)
+  else
+    let w2 := copyStatus r.2
+    (w2.pp.exitstatus, w2)
 
 inductive R | ok | raised deriving DecidableEq, Repr
 
-/-- pexpect.spawn.close(force) with the repair of #9 (descriptor marked closed even if the child survives) -/
+/-- `self.child_fd = -1; self.closed = True` -/
+def mark (v : W) : W := { v with sp := { v.sp with childFd := -1, closed := true } }
+
+/-- the end of ptyprocess.close once `terminate` has answered, then pexpect's own bookkeeping -/
+def closeTail (t : Bool × W) : R × W :=
+  if t.1 then (.ok, mark (spIsalive { t.2 with pp := { t.2.pp with closed := true } }).2)
+  else (.raised, mark t.2)
+
+/-- pexpect.spawn.close(force) (repaired: the descriptor is given up on every path) -/
 def spClose (w : W) (force : Bool) : R × W :=
-  if w.pp.closed then
-    let (_, w) := spIsalive w
-    (.ok, { w with sp := { w.sp with childFd := -1, closed := true } })
+  if w.pp.closed then (.ok, mark (spIsalive w).2)
   else
-    let w := { w with k := closeMaster w.k }
-    let (a, w) := ppIsalive w
-    let (okT, w) := if a then ppTerminate w force else (true, w)
-    if okT then
-      let w := { w with pp := { w.pp with closed := true } }
-      let (_, w) := spIsalive w
-      (.ok, { w with sp := { w.sp with childFd := -1, closed := true } })
-    else (.raised, { w with sp := { w.sp with childFd := -1, closed := true } })
+    let a := ppIsalive { w with k := closeMaster w.k }
+    closeTail (if a.1 then ppTerminate a.2 force else (true, a.2))
 
-def Inv (w : W) : Prop :=
+/-- a send / read after close: which descriptor would the system call touch? -/
+inductive IO | badf | valueError | usesOwnFd | touchesForeignFd deriving DecidableEq, Repr
+
+def spSend (w : W) : IO :=
+  if w.sp.childFd = -1 then .badf
+  else if w.k.fdOpen then .usesOwnFd else .touchesForeignFd
+
+def spRead (w : W) : IO :=
+  if w.sp.closed then .valueError
+  else if w.k.fdOpen then .usesOwnFd else .touchesForeignFd
+
+inductive LOp | isalive | wait | kill (sig : Nat) | terminate (force : Bool) | close (force : Bool) | childEnds
+deriving DecidableEq, Repr
+
+def stepOp (w : W) : LOp → W
+  | .isalive => (spIsalive w).2
+  | .wait => (spWait w).2
+  | .kill sig => let r := spIsalive w; if r.1 then { r.2 with k := deliver r.2.k sig } else r.2
+  | .terminate force =>
+      -- spawn.terminate runs the same ladder through spawn.isalive / spawn.kill
+      let t := ppTerminate w force
+      if t.2.pp.terminated then copyStatus t.2 else t.2
+  | .close force => (spClose w force).2
+  | .childEnds => { w with k := finishPlan w.k }
+
+/-! ### the invariant: what pexpect says about the child is the truth, and never changes once said -/
+
+def fateFields (f : Fate) : Option Nat × Option Nat × Option Nat :=
+  match f with
+  | .exit c => (some (c * 256), some c, none)
+  | .signal s => (some s, none, some s)
+
+/-- codes and signal numbers the kernel can report -/
+def Fate.Valid : Fate → Prop
+  | .exit c => c < 256
+  | .signal s => 0 < s ∧ s < 128
+
+def KValid (k : K) : Prop :=
+  k.plan.Valid ∧ (∀ f, k.proc = .zombie f → f.Valid) ∧ (∀ f, k.proc = .reaped f → f.Valid) ∧
+  (∀ s, k.pendOther = some s → 0 < s ∧ s < 128)
+
+/-- status truth and stability -/
+def Core (w : W) : Prop :=
+  KValid w.k ∧
   (w.pp.terminated = true ↔ ∃ f, w.k.proc = .reaped f) ∧
-  (∀ f, w.k.proc = .reaped f → (w.pp.exitstatus, w.pp.signalstatus) =
-      (match f with | .exit c => (some c, none) | .signal s => (none, some s))) ∧
-  (w.sp.terminated = true → w.pp.terminated = true ∧ w.sp.exitstatus = w.pp.exitstatus ∧ w.sp.signalstatus = w.pp.signalstatus)
+  (∀ f, w.k.proc = .reaped f → (w.pp.status, w.pp.exitstatus, w.pp.signalstatus) = fateFields f) ∧
+  (w.sp.terminated = true → w.pp.terminated = true ∧ w.sp.status = w.pp.status ∧
+      w.sp.exitstatus = w.pp.exitstatus ∧ w.sp.signalstatus = w.pp.signalstatus)
 
-def w0 (proc : Proc) (ih ii : Bool) : W := { k := { proc := proc, ignHup := ih, ignInt := ii }, pp := {}, sp := {} }
+/-- the descriptor number the object would use is still its own -/
+def FdOk (w : W) : Prop :=
+  (w.sp.childFd ≠ -1 → w.k.fdOpen = true ∧ w.sp.closed = false) ∧ (w.sp.childFd = -1 → w.sp.closed = true)
 
-/-- close() (force=True) leaves the child dead and reaped and the descriptor released — for every
-    disposition: decided here on all 2×2×2 initial kernels (running/stopped × ignores HUP × ignores INT) -/
+def Inv (w : W) : Prop := Core w ∧ FdOk w
+
+theorem decode_encode (f : Fate) (h : f.Valid) : decode f.encode = f := by
+  cases f with
+  | exit c =>
+    simp only [Fate.Valid] at h
+    show (if c * 256 % 128 = 0 then Fate.exit (c * 256 / 256 % 256) else Fate.signal (c * 256 % 128)) = Fate.exit c
+    have h0 : c * 256 % 128 = 0 := by omega
+    have h1 : c * 256 / 256 % 256 = c := by omega
+    rw [if_pos h0, h1]
+  | signal s =>
+    simp only [Fate.Valid] at h
+    show (if s % 128 = 0 then Fate.exit (s / 256 % 256) else Fate.signal (s % 128)) = Fate.signal s
+    have h0 : ¬ (s % 128 = 0) := by omega
+    have h1 : s % 128 = s := by omega
+    rw [if_neg h0, h1]
+
+theorem setFate_fields (pp : PP) (f : Fate) (h : f.Valid) :
+    (setFate pp f).terminated = true ∧ ((setFate pp f).status, (setFate pp f).exitstatus, (setFate pp f).signalstatus) = fateFields f ∧
+    (setFate pp f).closed = pp.closed := by
+  unfold setFate
+  rw [decode_encode f h]
+  cases f <;> simp [fateFields, Fate.encode]
+
+def SigOK (sig : Nat) : Prop := 0 < sig ∧ sig < 128
+
+theorem deliver_proc (k : K) (sig : Nat) :
+    (∀ f, (deliver k sig).proc = .reaped f ↔ k.proc = .reaped f) ∧ (deliver k sig).plan = k.plan ∧
+    (deliver k sig).fdOpen = k.fdOpen := by
+  unfold deliver
+  cases hp : k.proc with
+  | running =>
+    simp only
+    repeat' split
+    all_goals simp_all
+  | stopped =>
+    simp only
+    repeat' split
+    all_goals simp_all
+  | zombie f => simp [hp]
+  | reaped f => simp [hp]
+
+theorem deliver_zombie (k : K) (sig : Nat) (f : Fate) (h : (deliver k sig).proc = .zombie f) :
+    k.proc = .zombie f ∨ f = .signal SIGKILL ∨ f = .signal SIGHUP ∨ f = .signal SIGINT ∨ f = .signal sig ∨
+    (∃ s, k.pendOther = some s ∧ f = .signal s) := by
+  unfold deliver at h
+  cases hp : k.proc with
+  | running =>
+    rw [hp] at h
+    simp only at h
+    repeat' split at h
+    all_goals simp_all
+  | stopped =>
+    rw [hp] at h
+    simp only at h
+    repeat' split at h
+    all_goals simp_all
+  | zombie f' => rw [hp] at h; simp only at h; rw [hp] at h; exact Or.inl h
+  | reaped f' => rw [hp] at h; simp only at h; rw [hp] at h; exact absurd h (by simp)
+
+theorem deliver_pend (k : K) (sig : Nat) (s : Nat) (h : (deliver k sig).pendOther = some s) :
+    k.pendOther = some s ∨ s = sig := by
+  unfold deliver at h
+  cases hp : k.proc with
+  | running =>
+    rw [hp] at h
+    simp only at h
+    repeat' split at h
+    all_goals simp_all
+  | stopped =>
+    rw [hp] at h
+    simp only at h
+    repeat' split at h
+    all_goals simp_all
+  | zombie f' => rw [hp] at h; exact Or.inl h
+  | reaped f' => rw [hp] at h; exact Or.inl h
+
+theorem deliver_kvalid (k : K) (sig : Nat) (hs : SigOK sig) (h : KValid k) : KValid (deliver k sig) := by
+  obtain ⟨h1, h2, h3, h4⟩ := h
+  obtain ⟨d1, d2, _⟩ := deliver_proc k sig
+  refine ⟨by rw [d2]; exact h1, ?_, ?_, ?_⟩
+  · intro f hf
+    rcases deliver_zombie k sig f hf with hz | rfl | rfl | rfl | rfl | ⟨s, hs', rfl⟩
+    · exact h2 f hz
+    · simp [Fate.Valid, SIGKILL]
+    · simp [Fate.Valid, SIGHUP]
+    · simp [Fate.Valid, SIGINT]
+    · exact hs
+    · exact h4 s hs'
+  · intro f hf; exact h3 f ((d1 f).1 hf)
+  · intro s hs'
+    rcases deliver_pend k sig s hs' with hp | rfl
+    · exact h4 s hp
+    · exact hs
+
+/-- a kernel-only change that neither reaps nor un-reaps and keeps `fdOpen` keeps the invariant -/
+theorem core_of_k (w : W) (k' : K) (h : Core w) (hv : KValid k') (hr : ∀ f, k'.proc = .reaped f ↔ w.k.proc = .reaped f) :
+    Core { w with k := k' } := by
+  obtain ⟨_, h2, h3, h4⟩ := h
+  refine ⟨hv, ?_, ?_, h4⟩
+  · simp only; rw [h2]; constructor
+    · rintro ⟨f, hf⟩; exact ⟨f, (hr f).2 hf⟩
+    · rintro ⟨f, hf⟩; exact ⟨f, (hr f).1 hf⟩
+  · intro f hf; exact h3 f ((hr f).1 hf)
+
+theorem ppIsalive_inv (w : W) (h : Core w) : Core (ppIsalive w).2 ∧
+    ((ppIsalive w).1 = false → (ppIsalive w).2.pp.terminated = true) ∧
+    ((ppIsalive w).1 = true → (ppIsalive w).2 = w ∧ (w.k.proc = .running ∨ w.k.proc = .stopped)) := by
+  obtain ⟨hv, h2, h3, h4⟩ := h
+  unfold ppIsalive
+  by_cases ht : w.pp.terminated = true
+  · rw [if_pos ht]
+    exact ⟨⟨hv, h2, h3, h4⟩, fun _ => ht, fun hh => absurd hh (by simp)⟩
+  · rw [if_neg ht]
+    cases hp : w.k.proc with
+    | running =>
+      exact ⟨⟨hv, h2, h3, h4⟩, fun hh => absurd hh (by simp), fun _ => ⟨rfl, Or.inl rfl⟩⟩
+    | stopped =>
+      exact ⟨⟨hv, h2, h3, h4⟩, fun hh => absurd hh (by simp), fun _ => ⟨rfl, Or.inr rfl⟩⟩
+    | reaped f => exact absurd (h2.2 ⟨f, hp⟩) ht
+    | zombie f =>
+      have hfv : f.Valid := hv.2.1 f hp
+      obtain ⟨s1, s2, _⟩ := setFate_fields w.pp f hfv
+      refine ⟨⟨⟨hv.1, ?_, ?_, hv.2.2.2⟩, ?_, ?_, ?_⟩, fun _ => s1, fun hh => absurd hh (by simp)⟩
+      · intro f' hf'; exact absurd hf' (by simp)
+      · intro f' hf'
+        have : f' = f := by simpa using hf'.symm
+        subst this; exact hfv
+      · constructor
+        · intro _; exact ⟨f, rfl⟩
+        · intro _; exact s1
+      · intro f' hf'
+        have : f' = f := by simpa using hf'.symm
+        subst this; exact s2
+      · intro hst
+        exact absurd (h4 hst).1 ht
+
+theorem ppKill_inv (w : W) (sig : Nat) (hs : SigOK sig) (h : Core w) : Core (ppKill w sig) := by
+  obtain ⟨hi, _, ha⟩ := ppIsalive_inv w h
+  unfold ppKill
+  simp only
+  by_cases hal : (ppIsalive w).1 = true
+  · rw [if_pos hal]
+    obtain ⟨d1, _, _⟩ := deliver_proc (ppIsalive w).2.k sig
+    exact core_of_k (ppIsalive w).2 _ hi (deliver_kvalid _ sig hs hi.1) d1
+  · rw [if_neg hal]; exact hi
+
+theorem ppTerminate_inv (w : W) (force : Bool) (h : Core w) : Core (ppTerminate w force).2 := by
+  have sHUP : SigOK SIGHUP := by simp [SigOK, SIGHUP]
+  have sCONT : SigOK SIGCONT := by simp [SigOK, SIGCONT]
+  have sINT : SigOK SIGINT := by simp [SigOK, SIGINT]
+  have sKILL : SigOK SIGKILL := by simp [SigOK, SIGKILL]
+  have i0 := (ppIsalive_inv w h).1
+  have i1 := (ppIsalive_inv _ (ppKill_inv _ SIGHUP sHUP i0)).1
+  have i2 := (ppIsalive_inv _ (ppKill_inv _ SIGCONT sCONT i1)).1
+  have i3 := (ppIsalive_inv _ (ppKill_inv _ SIGINT sINT i2)).1
+  have i4 := (ppIsalive_inv _ (ppKill_inv _ SIGKILL sKILL i3)).1
+  unfold ppTerminate
+  simp only
+  split
+  · exact i0
+  · split
+    · exact i1
+    · split
+      · exact i2
+      · split
+        · exact i3
+        · split
+          · exact i4
+          · exact i3
+
+theorem copyStatus_inv (w : W) (h : Core w) (ht : w.pp.terminated = true) : Core (copyStatus w) := by
+  obtain ⟨hv, h2, h3, _⟩ := h
+  exact ⟨hv, h2, h3, fun _ => ⟨ht, rfl, rfl, rfl⟩⟩
+
+theorem spIsalive_inv (w : W) (h : Core w) : Core (spIsalive w).2 := by
+  obtain ⟨hi, hf, _⟩ := ppIsalive_inv w h
+  unfold spIsalive
+  simp only
+  by_cases hal : (ppIsalive w).1 = true
+  · rw [if_pos hal]; exact hi
+  · rw [if_neg hal]; exact copyStatus_inv _ hi (hf (by simpa using hal))
+
+theorem finishPlan_of_ne (k : K) (h : k.proc ≠ .running) : finishPlan k = k := by
+  unfold finishPlan
+  cases hp : k.proc with
+  | running => exact absurd hp h
+  | stopped => rfl
+  | zombie f => rfl
+  | reaped f => rfl
+
+theorem finishPlan_kvalid (k : K) (h : KValid k) : KValid (finishPlan k) := by
+  by_cases hr : k.proc = .running
+  · obtain ⟨h1, _, _, h4⟩ := h
+    have : finishPlan k = { k with proc := .zombie k.plan } := by simp [finishPlan, hr]
+    rw [this]
+    refine ⟨h1, ?_, ?_, h4⟩
+    · intro f hf
+      have : f = k.plan := by simpa using hf.symm
+      subst this; exact h1
+    · intro f hf; exact absurd hf (by simp)
+  · rw [finishPlan_of_ne k hr]; exact h
+
+theorem finishPlan_reaped (k : K) : (∀ f, (finishPlan k).proc = .reaped f ↔ k.proc = .reaped f) ∧ (finishPlan k).fdOpen = k.fdOpen := by
+  unfold finishPlan
+  cases hp : k.proc <;> simp [hp]
+
+theorem spWait_inv (w : W) (h : Core w) : Core (spWait w).2 := by
+  obtain ⟨hi, hf, ha⟩ := ppIsalive_inv w h
+  unfold spWait
+  simp only
+  by_cases hal : (ppIsalive w).1 = true
+  · rw [if_pos hal]
+    obtain ⟨heq, hrun⟩ := ha hal
+    rw [heq]
+    have hkv := finishPlan_kvalid w.k h.1
+    rcases hrun with hr | hs
+    · have hz : (finishPlan w.k).proc = .zombie w.k.plan := by simp [finishPlan, hr]
+      rw [hz]
+      simp only
+      have hpv : w.k.plan.Valid := h.1.1
+      obtain ⟨s1, s2, _⟩ := setFate_fields w.pp w.k.plan hpv
+      obtain ⟨_, h2, _, h4⟩ := h
+      apply copyStatus_inv
+      · refine ⟨⟨?_, ?_, ?_, hkv.2.2.2⟩, ?_, ?_, ?_⟩
+        · exact hkv.1
+        · intro f hf'; simp at hf'
+        · intro f hf'; simp only [Proc.reaped.injEq] at hf'; subst hf'; exact hpv
+        · simp only [s1, true_iff]; exact ⟨_, rfl⟩
+        · intro f hf'; simp only [Proc.reaped.injEq] at hf'; subst hf'; exact s2
+        · intro hst
+          obtain ⟨f, hf'⟩ := h2.1 (h4 hst).1
+          rw [hr] at hf'; cases hf'
+      · exact s1
+    · have hz : (finishPlan w.k).proc = .stopped := by simp [finishPlan, hs]
+      rw [hz]
+      exact h
+  · rw [if_neg hal]
+    exact copyStatus_inv _ hi (hf (by simpa using hal))
+
+theorem closeMaster_facts (k : K) (h : KValid k) :
+    KValid (closeMaster k) ∧ (∀ f, (closeMaster k).proc = .reaped f ↔ k.proc = .reaped f) ∧ (closeMaster k).fdOpen = false := by
+  have sHUP : SigOK SIGHUP := by simp [SigOK, SIGHUP]
+  have sCONT : SigOK SIGCONT := by simp [SigOK, SIGCONT]
+  unfold closeMaster
+  have hv0 : KValid { k with fdOpen := false } := h
+  obtain ⟨a1, _, a3⟩ := deliver_proc { k with fdOpen := false } SIGHUP
+  obtain ⟨b1, _, b3⟩ := deliver_proc (deliver { k with fdOpen := false } SIGHUP) SIGCONT
+  refine ⟨deliver_kvalid _ _ sCONT (deliver_kvalid _ _ sHUP hv0), ?_, by rw [b3, a3]⟩
+  intro f; rw [b1, a1]
+
+theorem mark_core (v : W) (h : Core v) : Core (mark v) := by
+  obtain ⟨a, b, c, d⟩ := h; exact ⟨a, b, c, d⟩
+
+theorem closeTail_core (t : Bool × W) (h : Core t.2) : Core (closeTail t).2 := by
+  unfold closeTail
+  split
+  · apply mark_core
+    apply spIsalive_inv
+    obtain ⟨a, b, c, d⟩ := h
+    exact ⟨a, b, c, d⟩
+  · exact mark_core _ h
+
+/-- `close` keeps the status truth on every path -/
+theorem spClose_core (w : W) (force : Bool) (h : Core w) : Core (spClose w force).2 := by
+  unfold spClose
+  split
+  · exact mark_core _ (spIsalive_inv w h)
+  · simp only
+    obtain ⟨cv, cr, _⟩ := closeMaster_facts w.k h.1
+    have h1 : Core { w with k := closeMaster w.k } := core_of_k w _ h cv cr
+    have h2 := (ppIsalive_inv _ h1).1
+    apply closeTail_core
+    split
+    · exact ppTerminate_inv _ force h2
+    · exact h2
+
+theorem closeTail_releases (t : Bool × W) : (closeTail t).2.sp.childFd = -1 ∧ (closeTail t).2.sp.closed = true := by
+  unfold closeTail
+  split <;> exact ⟨rfl, rfl⟩
+
+/-- after `close` the object has given up the descriptor, whatever happened to the child -/
+theorem spClose_releases (w : W) (force : Bool) :
+    (spClose w force).2.sp.childFd = -1 ∧ (spClose w force).2.sp.closed = true := by
+  unfold spClose
+  split
+  · exact ⟨rfl, rfl⟩
+  · exact closeTail_releases _
+
+theorem spClose_inv (w : W) (force : Bool) (h : Inv w) : Inv (spClose w force).2 :=
+  ⟨spClose_core w force h.1, fun hne => absurd (spClose_releases w force).1 hne, fun _ => (spClose_releases w force).2⟩
+
+end Lf
+
+namespace Lf
+
+def LOp.OK : LOp → Prop
+  | .kill sig => SigOK sig
+  | _ => True
+
+theorem fdOk_of_sp (w w' : W) (h : FdOk w) (hs : w'.sp.childFd = w.sp.childFd) (hc : w'.sp.closed = w.sp.closed) (hf : w'.k.fdOpen = w.k.fdOpen) :
+    FdOk w' := by
+  refine ⟨?_, ?_⟩
+  · intro hne
+    rw [hs] at hne
+    have := h.1 hne
+    rw [hc, hf]; exact this
+  · intro he
+    rw [hs] at he
+    rw [hc]; exact h.2 he
+
+theorem ppIsalive_fd (w : W) : (ppIsalive w).2.sp = w.sp ∧ (ppIsalive w).2.k.fdOpen = w.k.fdOpen := by
+  unfold ppIsalive
+  split
+  · exact ⟨rfl, rfl⟩
+  · split <;> exact ⟨rfl, rfl⟩
+
+theorem ppKill_fd (w : W) (sig : Nat) : (ppKill w sig).sp = w.sp ∧ (ppKill w sig).k.fdOpen = w.k.fdOpen := by
+  unfold ppKill
+  simp only
+  split
+  · exact ⟨(ppIsalive_fd w).1, by rw [(deliver_proc _ sig).2.2]; exact (ppIsalive_fd w).2⟩
+  · exact ppIsalive_fd w
+
+theorem ppTerminate_fd (w : W) (force : Bool) : (ppTerminate w force).2.sp = w.sp ∧ (ppTerminate w force).2.k.fdOpen = w.k.fdOpen := by
+  have a0 := ppIsalive_fd w
+  have k1 := ppKill_fd (ppIsalive w).2 SIGHUP
+  have a1 := ppIsalive_fd (ppKill (ppIsalive w).2 SIGHUP)
+  have k2 := ppKill_fd (ppIsalive (ppKill (ppIsalive w).2 SIGHUP)).2 SIGCONT
+  have a2 := ppIsalive_fd (ppKill (ppIsalive (ppKill (ppIsalive w).2 SIGHUP)).2 SIGCONT)
+  have k3 := ppKill_fd (ppIsalive (ppKill (ppIsalive (ppKill (ppIsalive w).2 SIGHUP)).2 SIGCONT)).2 SIGINT
+  have a3 := ppIsalive_fd (ppKill (ppIsalive (ppKill (ppIsalive (ppKill (ppIsalive w).2 SIGHUP)).2 SIGCONT)).2 SIGINT)
+  have k4 := ppKill_fd (ppIsalive (ppKill (ppIsalive (ppKill (ppIsalive (ppKill (ppIsalive w).2 SIGHUP)).2 SIGCONT)).2 SIGINT)).2 SIGKILL
+  have a4 := ppIsalive_fd (ppKill (ppIsalive (ppKill (ppIsalive (ppKill (ppIsalive (ppKill (ppIsalive w).2 SIGHUP)).2 SIGCONT)).2 SIGINT)).2 SIGKILL)
+  unfold ppTerminate
+  simp only
+  split
+  · exact a0
+  · split
+    · exact ⟨by rw [a1.1, k1.1, a0.1], by rw [a1.2, k1.2, a0.2]⟩
+    · split
+      · exact ⟨by rw [a2.1, k2.1, a1.1, k1.1, a0.1], by rw [a2.2, k2.2, a1.2, k1.2, a0.2]⟩
+      · split
+        · exact ⟨by rw [a3.1, k3.1, a2.1, k2.1, a1.1, k1.1, a0.1], by rw [a3.2, k3.2, a2.2, k2.2, a1.2, k1.2, a0.2]⟩
+        · split
+          · exact ⟨by rw [a4.1, k4.1, a3.1, k3.1, a2.1, k2.1, a1.1, k1.1, a0.1], by rw [a4.2, k4.2, a3.2, k3.2, a2.2, k2.2, a1.2, k1.2, a0.2]⟩
+          · exact ⟨by rw [a3.1, k3.1, a2.1, k2.1, a1.1, k1.1, a0.1], by rw [a3.2, k3.2, a2.2, k2.2, a1.2, k1.2, a0.2]⟩
+
+/-- **every life-cycle operation keeps the invariant** (status truth + descriptor ownership) -/
+theorem stepOp_inv (w : W) (op : LOp) (hop : op.OK) (h : Inv w) : Inv (stepOp w op) := by
+  obtain ⟨hc, hf⟩ := h
+  cases op with
+  | isalive =>
+    refine ⟨spIsalive_inv w hc, ?_⟩
+    unfold stepOp spIsalive
+    simp only
+    split
+    · exact fdOk_of_sp w _ hf (by rw [(ppIsalive_fd w).1]) (by rw [(ppIsalive_fd w).1]) (ppIsalive_fd w).2
+    · exact fdOk_of_sp w _ hf (by simp [copyStatus, (ppIsalive_fd w).1]) (by simp [copyStatus, (ppIsalive_fd w).1]) (by simp [copyStatus, (ppIsalive_fd w).2])
+  | wait =>
+    refine ⟨spWait_inv w hc, ?_⟩
+    unfold stepOp spWait
+    simp only
+    split
+    · split
+      · refine fdOk_of_sp w _ hf ?_ ?_ ?_
+        · simp [copyStatus, (ppIsalive_fd w).1]
+        · simp [copyStatus, (ppIsalive_fd w).1]
+        · simp only [copyStatus]; rw [(finishPlan_reaped _).2, (ppIsalive_fd w).2]
+      · exact fdOk_of_sp w _ hf (by rw [(ppIsalive_fd w).1]) (by rw [(ppIsalive_fd w).1]) (ppIsalive_fd w).2
+    · exact fdOk_of_sp w _ hf (by simp [copyStatus, (ppIsalive_fd w).1]) (by simp [copyStatus, (ppIsalive_fd w).1]) (by simp [copyStatus, (ppIsalive_fd w).2])
+  | kill sig =>
+    have hi := spIsalive_inv w hc
+    have hfd : FdOk (spIsalive w).2 := by
+      unfold spIsalive
+      simp only
+      split
+      · exact fdOk_of_sp w _ hf (by rw [(ppIsalive_fd w).1]) (by rw [(ppIsalive_fd w).1]) (ppIsalive_fd w).2
+      · exact fdOk_of_sp w _ hf (by simp [copyStatus, (ppIsalive_fd w).1]) (by simp [copyStatus, (ppIsalive_fd w).1]) (by simp [copyStatus, (ppIsalive_fd w).2])
+    unfold stepOp
+    simp only
+    split
+    · obtain ⟨d1, _, d3⟩ := deliver_proc (spIsalive w).2.k sig
+      exact ⟨core_of_k _ _ hi (deliver_kvalid _ sig hop hi.1) d1, fdOk_of_sp _ _ hfd rfl rfl d3⟩
+    · exact ⟨hi, hfd⟩
+  | terminate force =>
+    have ht := ppTerminate_inv w force hc
+    have hfd := ppTerminate_fd w force
+    unfold stepOp
+    simp only
+    split
+    · rename_i htt
+      exact ⟨copyStatus_inv _ ht htt, fdOk_of_sp w _ hf (by simp [copyStatus, hfd.1]) (by simp [copyStatus, hfd.1]) (by simp [copyStatus, hfd.2])⟩
+    · exact ⟨ht, fdOk_of_sp w _ hf (by rw [hfd.1]) (by rw [hfd.1]) hfd.2⟩
+  | close force => exact spClose_inv w force ⟨hc, hf⟩
+  | childEnds =>
+    unfold stepOp
+    exact ⟨core_of_k w _ hc (finishPlan_kvalid w.k hc.1) (finishPlan_reaped w.k).1, fdOk_of_sp w _ hf rfl rfl (finishPlan_reaped w.k).2⟩
+
+theorem ops_inv (ops : List LOp) (hops : ∀ op ∈ ops, op.OK) (w : W) (h : Inv w) : Inv (ops.foldl stepOp w) := by
+  induction ops generalizing w with
+  | nil => exact h
+  | cons op t ih => exact ih (fun o ho => hops o (by simp [ho])) _ (stepOp_inv w op (hops op (by simp)) h)
+
+/-- **status_truth** (C09): whenever pexpect says `terminated`, the child has been reaped with a fate `f`, exactly one
+    of exitstatus / signalstatus is set and equals it, and `status` decodes to the same fate -/
+theorem status_truth (w : W) (h : Inv w) (ht : w.sp.terminated = true) :
+    ∃ f, w.k.proc = .reaped f ∧ (w.sp.status, w.sp.exitstatus, w.sp.signalstatus) = fateFields f ∧
+      (∀ st, w.sp.status = some st → decode st = f) := by
+  obtain ⟨⟨hv, h2, h3, h4⟩, _⟩ := h
+  obtain ⟨hpt, e1, e2, e3⟩ := h4 ht
+  obtain ⟨f, hf⟩ := h2.1 hpt
+  refine ⟨f, hf, by rw [e1, e2, e3]; exact h3 f hf, ?_⟩
+  intro st hst
+  have hfv : f.Valid := hv.2.2.1 f hf
+  have := h3 f hf
+  rw [e1] at hst
+  cases f with
+  | exit c =>
+    simp only [fateFields, Prod.mk.injEq] at this
+    rw [this.1] at hst
+    have : st = (Fate.exit c).encode := by simpa [Fate.encode] using hst.symm
+    rw [this]; exact decode_encode _ hfv
+  | signal s =>
+    simp only [fateFields, Prod.mk.injEq] at this
+    rw [this.1] at hst
+    have : st = (Fate.signal s).encode := by simpa [Fate.encode] using hst.symm
+    rw [this]; exact decode_encode _ hfv
+
+theorem exactly_one_status (f : Fate) : ((fateFields f).2.1.isSome ∧ (fateFields f).2.2 = none) ∨ ((fateFields f).2.1 = none ∧ (fateFields f).2.2.isSome) := by
+  cases f <;> simp [fateFields]
+
+theorem reaped_stays (w : W) (op : LOp) (f : Fate) (h : w.k.proc = .reaped f) : (stepOp w op).k.proc = .reaped f := by
+  have iso : ∀ v : W, v.k.proc = .reaped f → (ppIsalive v).2.k.proc = .reaped f := by
+    intro v hv
+    by_cases ht : v.pp.terminated = true <;> simp [ppIsalive, ht, hv]
+  have kil : ∀ (v : W) (sig : Nat), v.k.proc = .reaped f → (ppKill v sig).k.proc = .reaped f := by
+    intro v sig hv; unfold ppKill; simp only; split
+    · exact ((deliver_proc _ sig).1 f).2 (iso v hv)
+    · exact iso v hv
+  have ter : ∀ (v : W) (force : Bool), v.k.proc = .reaped f → (ppTerminate v force).2.k.proc = .reaped f := by
+    intro v force hv
+    have i0 := iso v hv
+    have i1 := iso _ (kil _ SIGHUP i0)
+    have i2 := iso _ (kil _ SIGCONT i1)
+    have i3 := iso _ (kil _ SIGINT i2)
+    have i4 := iso _ (kil _ SIGKILL i3)
+    unfold ppTerminate; simp only
+    split
+    · exact i0
+    · split
+      · exact i1
+      · split
+        · exact i2
+        · split
+          · exact i3
+          · split
+            · exact i4
+            · exact i3
+  have spi : ∀ v : W, v.k.proc = .reaped f → (spIsalive v).2.k.proc = .reaped f := by
+    intro v hv; unfold spIsalive; simp only; split
+    · exact iso v hv
+    · exact iso v hv
+  cases op with
+  | isalive => exact spi w h
+  | wait =>
+    show (spWait w).2.k.proc = _
+    have e := iso w h
+    have hne : (ppIsalive w).2.k.proc ≠ .running := by rw [e]; simp
+    unfold spWait; simp only
+    split
+    · rw [finishPlan_of_ne _ hne, e]
+      exact e
+    · exact e
+  | kill sig =>
+    show (let r := spIsalive w; if r.1 then { r.2 with k := deliver r.2.k sig } else r.2).k.proc = _
+    simp only; split
+    · exact ((deliver_proc _ sig).1 f).2 (spi w h)
+    · exact spi w h
+  | terminate force =>
+    show (let t := ppTerminate w force; if t.2.pp.terminated then copyStatus t.2 else t.2).k.proc = _
+    simp only; split
+    · exact ter w force h
+    · exact ter w force h
+  | close force =>
+    show (spClose w force).2.k.proc = _
+    unfold spClose
+    split
+    · exact spi w h
+    · simp only
+      have hc : (closeMaster w.k).proc = .reaped f := by
+        unfold closeMaster
+        exact ((deliver_proc _ SIGCONT).1 f).2 (((deliver_proc _ SIGHUP).1 f).2 h)
+      have ha := iso { w with k := closeMaster w.k } hc
+      have hT : (if (ppIsalive { w with k := closeMaster w.k }).1 = true then ppTerminate (ppIsalive { w with k := closeMaster w.k }).2 force
+          else (true, (ppIsalive { w with k := closeMaster w.k }).2)).2.k.proc = .reaped f := by
+        split
+        · exact ter _ force ha
+        · exact ha
+      have tail : ∀ t : Bool × W, t.2.k.proc = .reaped f → (closeTail t).2.k.proc = .reaped f := by
+        intro t ht
+        unfold closeTail
+        split
+        · exact spi { t.2 with pp := { t.2.pp with closed := true } } ht
+        · exact ht
+      exact tail _ hT
+  | childEnds =>
+    show (finishPlan w.k).proc = _
+    have hne : w.k.proc ≠ .running := by rw [h]; simp
+    rw [finishPlan_of_ne _ hne]; exact h
+
+/-- **status_stable** (C09): once reported, status / exitstatus / signalstatus never change, whatever is called next -/
+theorem status_stable (w : W) (op : LOp) (hop : op.OK) (h : Inv w) (ht : w.sp.terminated = true) :
+    (stepOp w op).sp.terminated = true →
+    ((stepOp w op).sp.status, (stepOp w op).sp.exitstatus, (stepOp w op).sp.signalstatus) = (w.sp.status, w.sp.exitstatus, w.sp.signalstatus) := by
+  intro ht'
+  obtain ⟨f, hf, e, _⟩ := status_truth w h ht
+  obtain ⟨f', hf', e', _⟩ := status_truth _ (stepOp_inv w op hop h) ht'
+  have := reaped_stays w op f hf
+  rw [this] at hf'
+  have : f' = f := by simpa using hf'.symm
+  rw [e', e, this]
+
+/-- **never_alive_after_reap** (C10) -/
+theorem never_alive_after_reap (w : W) (h : Inv w) (f : Fate) (hr : w.k.proc = .reaped f) : (spIsalive w).1 = false := by
+  have ht : w.pp.terminated = true := h.1.2.1.2 ⟨f, hr⟩
+  simp [spIsalive, ppIsalive, ht]
+
+/-- **never_terminated_while_running** (C10) -/
+theorem never_terminated_while_running (w : W) (h : Inv w) (ht : w.sp.terminated = true) :
+    w.k.proc ≠ .running ∧ w.k.proc ≠ .stopped := by
+  obtain ⟨f, hf, _⟩ := status_truth w h ht
+  rw [hf]; simp
+
+/-- **io_after_close_errors** (C10): after `close`, on every path, a send fails with EBADF and a read with ValueError;
+    neither can reach a descriptor number that somebody else may own by now -/
+theorem io_after_close_errors (w : W) (force : Bool) : spSend (spClose w force).2 = .badf ∧ spRead (spClose w force).2 = .valueError := by
+  obtain ⟨h1, h2⟩ := spClose_releases w force
+  simp [spSend, spRead, h1, h2]
+
+/-- in every reachable state, I/O uses the object's own descriptor or fails — it never touches a foreign one -/
+theorem io_never_foreign (w : W) (h : Inv w) : spSend w ≠ .touchesForeignFd ∧ spRead w ≠ .touchesForeignFd := by
+  obtain ⟨_, hf⟩ := h
+  unfold spSend spRead
+  by_cases hfd : w.sp.childFd = -1
+  · have hc := hf.2 hfd
+    simp [hfd, hc]
+  · obtain ⟨h1, h2⟩ := hf.1 hfd
+    simp [hfd, h1, h2]
+
+def w0 (proc : Proc) (ih ii ph pi : Bool) : W :=
+  { k := { proc := proc, ignHup := ih, ignInt := ii, pendHup := ph, pendInt := pi }, pp := {}, sp := {} }
+
+/-- **close_reaps_and_releases** (C10): `close()` leaves the child dead and reaped and the descriptor released for
+    every disposition — running or stopped, ignoring SIGHUP and / or SIGINT, with or without signals already pending -/
 theorem close_reaps_and_releases :
-    ∀ st ∈ [Proc.running, Proc.stopped], ∀ ih ∈ [true, false], ∀ ii ∈ [true, false],
-      let r := spClose (w0 st ih ii) true
+    ∀ st ∈ [Proc.running, Proc.stopped], ∀ ih ∈ [true, false], ∀ ii ∈ [true, false], ∀ ph ∈ [true, false], ∀ pi ∈ [true, false],
+      let r := spClose (w0 st ih ii ph pi) true
       r.1 = .ok ∧ isReaped r.2.k.proc = true ∧ r.2.k.fdOpen = false ∧ r.2.sp.closed = true ∧
       r.2.sp.childFd = -1 ∧ r.2.sp.terminated = true := by decide
 
-/-- terminate(force=True) kills a child that ignores HUP and INT, stopped or not -/
+/-- **terminate_force_reaps** (C10) -/
 theorem terminate_force_reaps :
-    ∀ st ∈ [Proc.running, Proc.stopped], ∀ ih ∈ [true, false], ∀ ii ∈ [true, false],
-      let r := ppTerminate (w0 st ih ii) true
+    ∀ st ∈ [Proc.running, Proc.stopped], ∀ ih ∈ [true, false], ∀ ii ∈ [true, false], ∀ ph ∈ [true, false], ∀ pi ∈ [true, false],
+      let r := ppTerminate (w0 st ih ii ph pi) true
       r.1 = true ∧ isReaped r.2.k.proc = true := by decide
 
-/-- the defect #9, pre-repair: after a failed close(force=False) the object still names the closed descriptor -/
-example :
-    let w := w0 .running true true
-    let r := spClose w false
-    r.1 = .raised ∧ r.2.k.fdOpen = false ∧ r.2.k.proc = .running := by decide
+/-- `close` is idempotent -/
+theorem close_idempotent :
+    ∀ st ∈ [Proc.running, Proc.stopped], ∀ ih ∈ [true, false], ∀ ii ∈ [true, false], ∀ f1 ∈ [true, false], ∀ f2 ∈ [true, false],
+      let r1 := spClose (w0 st ih ii false false) f1
+      (spClose r1.2 f2).2.sp = (if r1.1 = .ok then r1.2.sp else (spClose r1.2 f2).2.sp) ∧ (spClose r1.2 f2).2.sp.childFd = -1 := by decide
 
-/-- isalive never changes the truth: it preserves the invariant (status truth, stability) -/
-theorem spIsalive_inv (w : W) (h : Inv w) : Inv (spIsalive w).2 := by
-  obtain ⟨h1, h2, h3⟩ := h
-  unfold spIsalive ppIsalive
-  by_cases ht : w.pp.terminated = true
-  · simp only [ht, if_true]
-    refine ⟨h1, h2, ?_⟩
-    intro _; exact ⟨ht, rfl, rfl⟩
-  · simp only [ht]
-    cases hp : w.k.proc with
-    | running => simp only [Bool.false_eq_true, if_false, if_true]; exact ⟨h1, h2, h3⟩
-    | stopped => simp only [Bool.false_eq_true, if_false, if_true]; exact ⟨h1, h2, h3⟩
-    | reaped f =>
-      have := h1.2 ⟨f, hp⟩
-      exact absurd this ht
-    | zombie f =>
-      simp only [Bool.false_eq_true, if_false]
-      refine ⟨?_, ?_, ?_⟩
-      · cases f <;> simp [setFate]
-      · intro f' hf'
-        simp only [Proc.reaped.injEq] at hf'
-        subst hf'
-        cases f <;> simp [setFate]
-      · intro _
-        cases f <;> simp [setFate]
+theorem w0_inv (proc : Proc) (ih ii ph pi : Bool) (hp : proc = .running ∨ proc = .stopped) : Inv (w0 proc ih ii ph pi) := by
+  refine ⟨⟨⟨by simp [w0, Fate.Valid], ?_, ?_, by intro s hs; simp [w0] at hs⟩, ?_, ?_, ?_⟩, ?_⟩
+  · intro f hf; rcases hp with rfl | rfl <;> simp [w0] at hf
+  · intro f hf; rcases hp with rfl | rfl <;> simp [w0] at hf
+  · constructor
+    · intro h; simp [w0] at h
+    · rintro ⟨f, hf⟩; rcases hp with rfl | rfl <;> simp [w0] at hf
+  · intro f hf; rcases hp with rfl | rfl <;> simp [w0] at hf
+  · intro h; simp [w0] at h
+  · exact ⟨fun _ => by simp [w0], fun h => by simp [w0] at h⟩
 
 end Lf
